@@ -268,7 +268,7 @@ Section Conv.
   Variable J : Type.
   Variable jprint : J -> bytes.            (* json.Marshal *)
   Variable jparse : bytes -> option J.     (* json.Unmarshal into the zero value; None = error *)
-  Variable jzero : J.                      (* the field's zero value *)
+  Variable jzero : bytes -> J.             (* the zero value of the struct-like field with that name *)
 
   Inductive fval :=
   | VInt (z : Z) | VStr (s : bytes) | VBool (b : bool)
@@ -317,12 +317,12 @@ Section Conv.
     end.
 
   (** the Go zero value a field keeps when the hash has no such field *)
-  Definition zero_of (k : kind) : fval :=
+  Definition zero_of (n : bytes) (k : kind) : fval :=
     match k with
     | KInt => VInt 0 | KStr => VStr [] | KBool => VBool false
     | KPInt => VPInt None | KPStr => VPStr None | KPBool => VPBool None
     | KBytes => VBytes [] | KVec32 => VVec32 [] | KVec64 => VVec64 []
-    | KJson => VJson jzero
+    | KJson => VJson (jzero n)
     end.
 
   (** schema: name of the key field, name of the version field (None = verless), the other fields *)
@@ -386,7 +386,7 @@ Section Conv.
     match fs with
     | [] => Ok []
     | (n, k) :: r =>
-      match (match hget h n with Some s => of_string k s | None => Ok (zero_of k) end) with
+      match (match hget h n with Some s => of_string k s | None => Ok (zero_of n k) end) with
       | Ok v => match from_fields h r with
                 | Ok vs => Ok ((n, v) :: vs)
                 | Err e => Err e
@@ -635,6 +635,11 @@ Arguments Build_jrec {doc}.
 Definition tJ := bytes.
 Definition tjprint (j : tJ) : bytes := j.
 Definition tjparse (s : bytes) : option tJ := Some s.
+(* zero values of the observer's struct-like fields: "St" is a struct value, every other one a pointer / slice *)
+Definition tjzero (n : bytes) : tJ :=
+  if bytes_eqb n [83; 116] then [123; 34; 97; 34; 58; 48; 44; 34; 98; 34; 58; 34; 34; 125] (* {"a":0,"b":""} *)
+  else if bytes_eqb n [69; 120; 112] then [34; 48; 48; 48; 49; 45; 48; 49; 45; 48; 49; 84; 48; 48; 58; 48; 48; 58; 48; 48; 90; 34] (* "0001-01-01T00:00:00Z" *)
+  else [110; 117; 108; 108] (* null *).
 
 Definition tfval := fval tJ.
 Definition tentity := entity tJ.
@@ -788,7 +793,7 @@ Definition check_args (sc : schema) (e : tentity) (impl : list bytes) : bool :=
 
 Definition check_case (c : case) : bool :=
   match c with
-  | CHash sc ops impl => list_eqb obs_eqb (snd (run tJ tjprint tjparse [] sc None ops)) impl
+  | CHash sc ops impl => list_eqb obs_eqb (snd (run tJ tjprint tjparse tjzero sc None ops)) impl
   | CArgs sc e impl => check_args sc e impl
   | CJson vn ops impl => list_eqb jobs_eqb (jrun vn None ops) impl
   | CDec z o => bytes_eqb (print_Z z) o
